@@ -27,7 +27,9 @@ RULE = (
     "open/write/flush/close of the header and manifest files, hashsum, unlink): quick = 40 points per scenario "
     "always including every event inside commit_patch, thorough = every point. Family 2: every prefix length L of "
     "the final user-block write (new[:L]+old[L:1024]+post-commit payload), exhaustive per commit. Family 3: real "
-    "SIGKILL of a writer process looping fill/commit, judged only via its fsync'd progress log. Oracle on the "
+    "SIGKILL of a writer process looping fill/commit (half of the kills at a random delay, half aimed 0-6 ms after the "
+    "writer announced commit number 0..5; the writer must be alive when the signal is sent), judged only via its "
+    "fsync'd progress log. Oracle on the "
     "directory left behind: committed containers and manifests byte-identical; committed subset opens and shows the "
     "last committed state; the full set either fails to open, or opens recognisably uncommitted, or opens with a "
     "verifying hash and shows exactly the old or the completely written new state; reopening r+ and closing never "
